@@ -1,4 +1,5 @@
 import DdsModel.Enc13
+import DdsModel.Enc7
 import DdsModel.Drv.Util
 /-!
 Driver section of C13.  Case line (see harness/src/c13.rs):
@@ -8,6 +9,15 @@ the 16 pixels decoded at 8 bit by the PROVED decoder models (`Bc.decodeBlock`, `
 For RGBA8 inputs additionally the bytes predicted by the discrete encoder model (`Enc13.predictBlock`) and, for BC7
 without dithering, the header fields read back from each block with `Enc13.bc7Fields` together with the constraint
 `Enc13.bc7Rule` the discrete rules put on them.
+BC7 additionally (`Enc7.lean`): `w7` = every emitted block parsed into the arguments of `Compressed::modeN` (positional
+reads of `Bc7Spec`) and written again with `Enc7.write` (hash of the 16 bytes); `cl7` = for RGBA8 inputs without
+dithering, blocks that are not single-coloured and lie fully inside the image: the block `Enc7.emit` builds from the
+emitted endpoints / p-bits / partition / rotation / selector and the ORIGINAL pixels (`closest_*` + `merge` + writer), in
+the orientation of the endpoint pairs that reproduces the emitted block if there is one.
+Further case kinds (direct tie through `dds::verif_hook`, only generated when the hook exists):
+`w7h <mode> <part> <rot> <sel> <endpoints> <alpha> <pbits> <indexes> <indexes2>` → hex of `Enc7.write`;
+`cl7h <kind> <I> <e0> <e1> <pixels>` → `closest_rgb / rgba / alpha`: index list and error;
+`w7e <W> <weights>` → the encoder's weight table re-parsed from src/encode/bc7.rs against `Enc7.WEIGHTS_W`.
 -/
 namespace Dds.Drv.C13
 open Dds Dds.Drv Dds.Bc Dds.Enc13
@@ -133,8 +143,129 @@ def maskOutside (f : Option Fmt) (inside : List Bool) (pieces : List (Nat × Lis
       else pc
   else pieces
 
+
+/-! ### BC7: the arguments of `Compressed::modeN` read back from a block (positional reads of `Bc7Spec`) -/
+
+def fieldsOfBlock (b : Nat) : Option Enc7.Fields :=
+  let m := Bc7Spec.modeOf b
+  match Bc7Spec.modes[m]? with
+  | none => none
+  | some r =>
+    let ne := 2 * r.subsets
+    let part := Bc7Spec.rd b (m + 1) r.partBits
+    let joint := m = 6 ∨ m = 7
+    let eps := (List.range ne).map fun e =>
+      ((List.range 3).map fun c => Bc7Spec.rd b (Bc7Spec.colorStart m r + (c * ne + e) * r.colorBits) r.colorBits) ++
+      (if joint then [Bc7Spec.rd b (Bc7Spec.alphaStart m r + e * r.alphaBits) r.alphaBits] else [])
+    let alpha := if m = 4 ∨ m = 5 then
+        (List.range 2).map fun e => Bc7Spec.rd b (Bc7Spec.alphaStart m r + e * r.alphaBits) r.alphaBits
+      else []
+    some {
+      mode := m
+      partition := part
+      rotation := Bc7Spec.rd b (m + 1 + r.partBits) r.rotBits
+      indexMode := Bc7Spec.rd b (m + 1 + r.partBits + r.rotBits) r.selBits
+      endpoints := eps
+      alpha := alpha
+      pBits := (List.range (Bc7Spec.pBitCount r)).map fun i => Bc7Spec.rd b (Bc7Spec.pStart m r + i) 1
+      indexes := Enc7.ofList r.idxBits ((List.range 16).map fun i => Bc7Spec.index1 m r b part i)
+      indexes2 := if r.idx2Bits = 0 then 0 else Enc7.ofList r.idx2Bits ((List.range 16).map fun i => Bc7Spec.index2 m r b i) }
+
+def swapAt {α : Type} (l : List α) (k : Nat) (d : α) : List α :=
+  (List.range l.length).map fun i => if i = 2 * k then l.getD (2 * k + 1) d else if i = 2 * k + 1 then l.getD (2 * k) d else l.getD i d
+
+/-- the arguments `Compressed::modeN` may have received when the emitted block shows `f`: for every endpoint pair either
+the emitted order or the exchanged one (with its p-bits, where they are per endpoint) -/
+def orientations (f : Enc7.Fields) : List Enc7.Fields :=
+  let flags (n : Nat) : List (List Bool) :=
+    (List.range (2 ^ n)).map fun v => (List.range n).map fun k => (v / 2 ^ k) % 2 = 1
+  let perEndpointP := f.mode = 0 ∨ f.mode = 3 ∨ f.mode = 6 ∨ f.mode = 7
+  if f.mode = 4 ∨ f.mode = 5 then
+    (flags 2).map fun fl =>
+      { f with endpoints := if fl.getD 0 false then swapAt f.endpoints 0 [] else f.endpoints,
+               alpha := if fl.getD 1 false then swapAt f.alpha 0 0 else f.alpha }
+  else
+    let n := f.endpoints.length / 2
+    (flags n).map fun fl =>
+      (List.range n).foldl (fun g k =>
+        if fl.getD k false then
+          { g with endpoints := swapAt g.endpoints k [], pBits := if perEndpointP then swapAt g.pBits k 0 else g.pBits }
+        else g) f
+
+/-- the block `Enc7.emit` predicts from the emitted parameters and the original pixels, in the orientation that
+reproduces `b` if there is one (else in the emitted orientation) -/
+def reEmit (b : Nat) (pixels : List (List Nat)) : Option Nat :=
+  (fieldsOfBlock b).map fun f =>
+    let cands := (orientations f).map fun g => Enc7.emit g pixels
+    if cands.contains b then b else cands.getD 0 0
+
+def hashBlockNat (v : Nat) : String := hex8 (hashVals (le128Bytes v))
+
+def natList? (s : String) : Option (List Nat) :=
+  if s = "-" then some [] else (s.splitOn ",").mapM nat?
+
+def hexOfNat128 (v : Nat) : String := String.join ((le128Bytes v).map hex2)
+
+/-- `w7h`: direct tie of the writers through `dds::verif_hook::bc7_write` -/
+def runW7h (t : List String) : String :=
+  match t with
+  | [mode, part, rot, sel, eps, al, pb, ix, ix2] =>
+    match nat? mode, nat? part, nat? rot, nat? sel, natList? eps, natList? al, natList? pb, natList? ix, natList? ix2 with
+    | some mode, some part, some rot, some sel, some eps, some al, some pb, some ix, some ix2 =>
+      let sh := Enc7.modeShape mode
+      let nch := if mode = 6 ∨ mode = 7 then 4 else 3
+      let f : Enc7.Fields := {
+        mode := mode, partition := part, rotation := rot, indexMode := sel
+        endpoints := (List.range sh.1).map fun e => (List.range nch).map fun c => eps.getD (e * nch + c) 0
+        alpha := al, pBits := pb
+        indexes := Enc7.ofList sh.2.2.2.2.1 ix
+        indexes2 := if sh.2.2.2.2.2.1 = 0 then 0 else Enc7.ofList sh.2.2.2.2.2.1 ix2 }
+      if mode ≥ 8 ∨ eps.length ≠ sh.1 * nch ∨ ix.length ≠ 16 ∨ ix2.length ≠ (if sh.2.2.2.2.2.1 = 0 then 0 else 16)
+          ∨ pb.length ≠ sh.2.2.2.1 ∨ al.length ≠ (if mode = 4 ∨ mode = 5 then 2 else 0) then "bad-case"
+      else if decide f.WF ∧ ix.all (· < 2 ^ sh.2.2.2.2.1) ∧ ix2.all (· < 2 ^ sh.2.2.2.2.2.1) then "ok " ++ hexOfNat128 (Enc7.write f)
+      else "bad-case"
+    | _, _, _, _, _, _, _, _, _ => "bad-case"
+  | _ => "bad-case"
+
+/-- `cl7h`: direct tie of `closest_*` -/
+def runCl7h (t : List String) : String :=
+  match t with
+  | [kind, I, e0, e1, pixels] =>
+    match nat? I, natList? e0, natList? e1, natList? pixels with
+    | some I, some e0, some e1, some pixels =>
+      let nch := if kind = "rgb" then 3 else if kind = "rgba" then 4 else if kind = "alpha" then 1 else 0
+      let okI := (kind = "rgb" ∧ (I = 2 ∨ I = 3)) ∨ (kind = "rgba" ∧ (I = 2 ∨ I = 4)) ∨ (kind = "alpha" ∧ (I = 2 ∨ I = 3))
+      if nch = 0 ∨ ¬ okI ∨ e0.length ≠ nch ∨ e1.length ≠ nch ∨ pixels.length % nch ≠ 0 ∨ pixels.length / nch > 16
+          ∨ pixels.length = 0 ∨ (kind = "alpha" ∧ pixels.length ≠ 16) ∨ ¬ (e0 ++ e1 ++ pixels).all (· < 256) then "bad-case"
+      else
+        let n := pixels.length / nch
+        let pxs := (List.range n).map fun i => (List.range nch).map fun c => pixels.getD (i * nch + c) 0
+        let r := if kind = "rgb" then Enc7.closestRgb I e0 e1 pxs
+          else if kind = "rgba" then Enc7.closestRgba I e0 e1 pxs
+          else Enc7.closestAlpha I (e0.getD 0 0) (e1.getD 0 0) pixels
+        let ixs := (List.range n).map fun i => toString (Enc7.get I r.1 i)
+        s!"ok {",".intercalate ixs} {r.2}"
+    | _, _, _, _ => "bad-case"
+  | _ => "bad-case"
+
+/-- `w7e`: the encoder's own weight tables (source text of src/encode/bc7.rs) -/
+def runW7e (t : List String) : String :=
+  match t with
+  | [W, ws] =>
+    match nat? W, natList? ws with
+    | some W, some ws =>
+      if W = 2 ∨ W = 3 ∨ W = 4 then
+        "ok " ++ ",".intercalate (((List.range (2 ^ W)).map fun k => Enc7.weight W k).map toString) ++
+          (if ws = (List.range (2 ^ W)).map (fun k => Enc7.weight W k) then " same" else " DIFFERENT")
+      else "bad-case"
+    | _, _ => "bad-case"
+  | _ => "bad-case"
+
 def runC13 (line : String) : String :=
   match toks line with
+  | "w7h" :: t => runW7h t
+  | "cl7h" :: t => runCl7h t
+  | "w7e" :: t => runW7e t
   | [cls, f, q, m, d, w, h, inprec, inhex, wit, ok3, hex] =>
     match c13Fmt f, c13Quality q, nat? w, nat? h, hexBytes hex.toList with
     | some (fmt, bpb), some qual, some w, some h, some bytes =>
@@ -191,7 +322,27 @@ def runC13 (line : String) : String :=
             obs ++ "@" ++ rules
           else "-"
         | none => "-"
-      s!"ok {nb} {shapes} {ports} {hashes} {pred} {b7}"
+      -- BC7 writer: parse + `Enc7.write`; `closest_*` re-derivation of the emitted indexes
+      let w7 : String :=
+        if fmt = none then
+          String.join ((List.range nb).map fun b =>
+            match fieldsOfBlock (blockNat (blkOf b)) with
+            | some f => hashBlockNat (Enc7.write f)
+            | none => "--------")
+        else "-"
+      let cl7 : String :=
+        match img with
+        | some ia =>
+          if fmt = none ∧ d = "N" then
+            ";".intercalate ((List.range nb).map fun b =>
+              let pxs := pixels ia b
+              if (singleColour pxs).isSome ∨ ¬ (inside b).all id then "-" else
+              match reEmit (blockNat (blkOf b)) (pxs.map fun p => [p.r, p.g, p.b, p.a]) with
+              | some v => hashBlockNat v
+              | none => "!")
+          else "-"
+        | none => "-"
+      s!"ok {nb} {shapes} {ports} {hashes} {pred} {b7} {w7} {cl7}"
     | _, _, _, _, _ => "bad-case"
   | _ => "bad-case"
 
